@@ -164,7 +164,20 @@ func recvHandler(w *workerCtx, line []byte) (any, error) {
 	sort.SliceStable(sorted, func(i, j int) bool { return sorted[i].Name < sorted[j].Name })
 
 	args := optFlags(s.Opts)
+	// the user's exclude rules behind the protected names: a plain name where the scenario protects that name at
+	// every depth ("a" covers "d/a"), a path rule ("d/a") where it protects that one path only
+	var protRules []string
+	inProt := map[string]bool{}
 	for _, p := range s.Prot {
+		inProt[p] = true
+	}
+	for _, p := range s.Prot {
+		if b := filepath.Base(p); b != p && inProt[b] {
+			continue
+		}
+		protRules = append(protRules, p)
+	}
+	for _, p := range protRules {
 		args = append(args, "--exclude="+p)
 	}
 	// one complete session of the reference sender against the real receiver
@@ -184,7 +197,7 @@ func recvHandler(w *workerCtx, line []byte) (any, error) {
 			}
 			sargs = append(sargs, ".", sub)
 			p = drv.StartServerReceiver(srv, mod, sargs, -1, -1, nil)
-			for _, x := range s.Prot {
+			for _, x := range protRules {
 				p.SendRules = append(p.SendRules, "- "+x) // the user's exclude rules protect these names from --delete
 			}
 			err = p.ClientHandshake(s.Opts["del"])
